@@ -57,5 +57,16 @@ def check(run):
     # bytes 128..288 of generate_rln_proof on real requests
     for M in rlngen.make_messages(run, 2 if quick else 10, rng):
         seqs.append(M["setup"] + [f"rln prove_req {hx(M['req'])}"])
-    run.rules.append("witnesses with boundary / random field values in every position, all-zero / all-one / one-hot / random direction patterns, all 2^k patterns on a prefix, through proof_values_from_witness (formulas vs the ideal path fold), calculate_rln_witness()[0..6] and bytes 128..288 of generate_rln_proof; distinct = distinct witness")
+        # requests whose (secret, limit) is NOT what the leaf at that position commits to: the published root must still be
+        # the fold of H(H(s), limit) along the path read from the tree (the circuit's root output), not the tree's own root
+        m = M["member"]
+        lim2 = m.limit + 1 if m.limit < 2**16 else m.limit - 1      # stays inside the circuit's 16-bit range (beyond it: C12's open finding)
+        for (sec, idx_, lim, pre) in [(m.secret, m.index, lim2, []),                               # another limit than the registered one
+                                     (m.secret, m.index ^ 1, m.limit, []),                         # neighbouring (empty or foreign) position
+                                     ((m.secret + 1) % P, m.index, m.limit, []),                   # another secret
+                                     (m.secret, m.index, m.limit, [f"rln set_leaf {hex(m.index)} {hex(rand_fr(rng))}"]),   # leaf replaced after registration
+                                     (m.secret, m.index, m.limit, [f"rln delete {hex(m.index)}"])]:                     # leaf deleted
+            rq = rlngen.prove_request(sec, idx_, lim, min(M["mid"], lim - 1), M["ext"], M["signal"])
+            seqs.append(M["setup"] + pre + [f"rln prove_req {hx(rq)}"])
+    run.rules.append("witnesses with boundary / random field values in every position, all-zero / all-one / one-hot / random direction patterns, all 2^k patterns on a prefix, through proof_values_from_witness (formulas vs the ideal path fold), calculate_rln_witness()[0..6] and bytes 128..288 of generate_rln_proof (registered members and requests that do not match the stored leaf: other limit, other secret, neighbouring position, replaced / deleted leaf); distinct = distinct witness")
     run.differential("proof-values", seqs, canon=canon, shrink=False)
